@@ -13,6 +13,7 @@ import (
 	"time"
 
 	"pikemc/vsched"
+	"pikemc/vsync"
 )
 
 type Replay struct {
@@ -166,6 +167,7 @@ func (c *Ctx) RunSched(sc Sched) {
 	if c.Replay != nil {
 		o := sc.Opt
 		o.Trace = true
+		vsync.NewGeneration()
 		bodies, check, _ := sc.Setup()
 		x := vsched.Execute(o, c.Replay.Choices, bodies)
 		v := classify(x, check)
@@ -176,6 +178,11 @@ func (c *Ctx) RunSched(sc Sched) {
 		}
 		if v != nil {
 			c.Violation(sc.Name, v.Sig, v.Msg, x.Choices, nil, x.Trace)
+		}
+		if c.Race {
+			for _, rr := range raceNew() {
+				c.Violation(sc.Name, rr.Sig, rr.Text, x.Choices, nil, x.Trace)
+			}
 		}
 		return
 	}
@@ -190,9 +197,16 @@ func (c *Ctx) RunSched(sc Sched) {
 	ex := &vsched.Explorer{Opt: sc.Opt, Bounds: sc.Bounds, ShardI: c.Shard, ShardN: c.NShards, MaxExecs: sc.MaxExecs, StopOnFirst: false}
 	ex.Deadline = c.TimeUp
 	ex.Setup = func() ([]func(), func(*vsched.Exec) *vsched.Violation) {
+		vsync.NewGeneration()
 		b, chk, out := sc.Setup()
 		return b, func(x *vsched.Exec) *vsched.Violation {
 			v := chk(x)
+			if c.Race {
+				for _, rr := range raceNew() {
+					// attribute the report to this schedule; recorded directly so several distinct races survive
+					c.Violation(sc.Name, rr.Sig, rr.Text, append([]int(nil), x.Choices...), nil, nil)
+				}
+			}
 			if out != nil {
 				o := out()
 				h := H(o)
@@ -262,6 +276,7 @@ func (c *Ctx) gate(sc Sched) string {
 	run := func(prefix []int) (string, []int) {
 		o := sc.Opt
 		o.Trace = true
+		vsync.NewGeneration()
 		b, chk, out := sc.Setup()
 		x := vsched.Execute(o, prefix, b)
 		chk(x)
